@@ -89,6 +89,10 @@ func runC15(c *Ctx) {
 		}
 	}
 	if jcall == nil {
+		if strict := w.callsToDeep(unmarshal, "(*encoding/json.Decoder).DisallowUnknownFields"); len(strict) > 0 {
+			c.Bad("R2.gate", "Unmarshal|JSON first", w.Pos(strict[0].Pos()), "the JSON arm decodes with DisallowUnknownFields: a JSON object with one key this version does not name is refused there and then reinterpreted as legacy text")
+			return
+		}
 		c.Bad("R2.gate", "Unmarshal|JSON first", w.FnPos(unmarshal), "Unmarshal no longer tries the JSON format")
 		return
 	}
